@@ -181,11 +181,30 @@ def repo_key(extra=()):
     return file_hash(files)
 
 
+def prune_cache(sub, keep):
+    """content-hash caches grow with every tree the checks are run against (one directory per tree and variant, a
+    precompiled header is ~0.5 GB): only the `keep` most recently used entries of .build/<sub> are kept"""
+    root = os.path.join(BUILD, sub)
+    if not os.path.isdir(root):
+        return
+    ents = sorted((os.path.join(root, e) for e in os.listdir(root)), key=lambda q: os.path.getmtime(q), reverse=True)
+    for q in ents[keep:]:
+        if os.path.isdir(q):
+            shutil.rmtree(q, ignore_errors=True)
+        else:
+            os.remove(q)
+
+
 def build_pch(variant):
     flags = f"{BASE_FLAGS} {VARIANTS[variant]}"
     key = hashlib.sha256((repo_key() + flags).encode()).hexdigest()[:20]
     d = os.path.join(BUILD, "pch", key)
     gch = os.path.join(d, "harness.h.gch")
+    prune_cache("pch", 20)
+    prune_cache("examples", 6)
+    prune_cache("extract", 6)
+    if os.path.exists(gch):
+        os.utime(d, None)           # most recently used
     if not os.path.exists(gch):
         os.makedirs(d, exist_ok=True)
         shutil.copy(os.path.join(VERIF, "cpp", "harness.h"), os.path.join(d, "harness.h"))
@@ -240,6 +259,14 @@ def build_harness(cases, workdir, variant="plain", nshards=None):
         f.write("\n".join(main))
     key = hashlib.sha256((file_hash(srcs + [mp]) + repo_key() + flags).encode()).hexdigest()[:20]
     binp = os.path.join(workdir, f"harness_{variant}_{key}")
+    # binaries of earlier trees / case sets in this work directory: keep the three most recent per variant
+    olds = sorted((os.path.join(workdir, f) for f in os.listdir(workdir) if f.startswith(f"harness_{variant}_") and not f.endswith(key)),
+                  key=os.path.getmtime, reverse=True)
+    for q in olds[3:]:
+        if os.path.isdir(q):
+            shutil.rmtree(q, ignore_errors=True)
+        else:
+            os.remove(q)
     if os.path.exists(binp):
         return True, binp, "cached"
 
